@@ -257,6 +257,13 @@ func TestC11(t *testing.T) {
 			return ip4(lo + 1 + uint32(r.Intn(int(minU32(size-1, 6)))))
 		}
 		duids := [][]byte{{0, 3, 0, 0, 1}, {0, 3, 0, 0, 2}, {9, 9, 9, 9}, {}}
+		if i%3 == 1 { // identities of every shape: long ones that differ only in their last byte or only beyond the 16th, one a prefix of another
+			long := randBytes(r, 16+r.Intn(8))
+			l2 := append(append([]byte{}, long...), 1)
+			l3 := append(append([]byte{}, long...), 2)
+			l4 := append(append([]byte{}, long[:len(long)-1]...), long[len(long)-1]^1)
+			duids = [][]byte{long, l2, l3, l4, long[:16], {0, 3, 0, 0, 1}, {0xff}, randBytes(r, 1+r.Intn(40))}
+		}
 		n := 6 + r.Intn(35)
 		var ops []dbOp
 		for j := 0; j < n; j++ {
